@@ -204,6 +204,14 @@ def param_space(ctx, rng, n: int) -> Iterator[Tuple[str, Callable]]:
             em = h.ExternalModule(name=f"Xd{len(dom)}", domain=dom, port_list=[h.Input(name="a"), h.Output(name="b", width=2), h.Inout(name="c")],
                                   paramtype=dict)
             yield one(em({"p": 1}), f"ExternalModule[domain={dom!r}] in package domain {pdom!r}", domain=pdom)
+    # external modules declared in the domains of the built-in primitives, named like one of them or not: whatever reads the package
+    # resolves these names to the built-ins. (Built lazily: the declaration itself may be refused, which counts as a rejected item.)
+    for dom, name in (("vlsir.primitives", "resistor"), ("vlsir.primitives", "foo"), ("hdl21.primitives", "Mos"), ("hdl21.ideal", "R"), ("vlsir.primitives", "mos")):
+        def thunk_res(dom=dom, name=name):
+            em = h.ExternalModule(name=name, domain=dom, port_list=[h.Input(name="a"), h.Output(name="b")], paramtype=h.HasNoParams)
+            return one(em(), "reserved")[1]()
+
+        yield f"ExternalModule named {name!r} in the primitives' domain {dom!r}", thunk_res
 
 
 EXEC_TEMPLATE = """
